@@ -43,12 +43,25 @@ func hasRecoverBarrier(p *Prog, fn *ssa.Function, at ssa.Instruction) (bool, str
 		}
 		rec := false
 		var recCall *ssa.Call
-		eachInstr(cl, func(x ssa.Instruction) {
+		// recover() stops a panic only when the deferred function itself calls it: a recover one
+		// call deeper (in a helper the deferred function calls) returns nil
+		eachInstrLocal(cl, func(x ssa.Instruction) {
 			if c, ok := x.(*ssa.Call); ok && calleeName(c) == "builtin recover" {
 				rec = true
 				recCall = c
 			}
 		})
+		if !rec {
+			nested := false
+			eachInstr(cl, func(x ssa.Instruction) {
+				if c, ok := x.(*ssa.Call); ok && calleeName(c) == "builtin recover" {
+					nested = true
+				}
+			})
+			if nested {
+				why = "recover() is not called by the deferred function itself but by a function it calls: it returns nil there and the panic continues"
+			}
+		}
 		if !rec {
 			return
 		}
